@@ -32,10 +32,24 @@ type FS struct {
 	// properties of the world, not injected faults.
 	ReadOnly   map[string]bool
 	Unreadable map[string]bool
+	// Links are symbolic links: name -> the name it points to.
+	Links map[string]string
+}
+
+// Resolve follows symbolic links (a bounded number of them).
+func (f *FS) Resolve(name string) string {
+	for i := 0; i < 8; i++ {
+		t, ok := f.Links[name]
+		if !ok {
+			return name
+		}
+		name = t
+	}
+	return name
 }
 
 func NewFS() *FS {
-	return &FS{Files: map[string][]byte{}, Dirs: map[string]bool{".": true}, ReadOnly: map[string]bool{}, Unreadable: map[string]bool{}}
+	return &FS{Files: map[string][]byte{}, Dirs: map[string]bool{".": true}, ReadOnly: map[string]bool{}, Unreadable: map[string]bool{}, Links: map[string]string{}}
 }
 
 func (f *FS) Clone() *FS {
@@ -51,6 +65,9 @@ func (f *FS) Clone() *FS {
 	}
 	for k, v := range f.Unreadable {
 		g.Unreadable[k] = v
+	}
+	for k, v := range f.Links {
+		g.Links[k] = v
 	}
 	return g
 }
@@ -361,6 +378,7 @@ func Exit(code int) {
 func ReadFile(name string) ([]byte, error) {
 	p := Cur
 	rec, f := p.step(SReadFile, name)
+	name = p.FS.Resolve(name)
 	if f != nil {
 		switch f.Kind {
 		case FReadEACCES:
@@ -427,6 +445,7 @@ const (
 // OpenFile implements os.OpenFile on the simulated disk.
 func OpenFile(name string, flag int) (*Handle, error) {
 	p := Cur
+	name = p.FS.Resolve(name)
 	if flag&(oWRONLY|oRDWR) == 0 {
 		rec, f := p.step(SOpenRead, name)
 		if f != nil {
@@ -589,13 +608,25 @@ type Info struct {
 	Dir   bool
 	Pipe  bool
 	Char  bool
+	Link  bool
 	Clock int64
 }
 
 // Stat implements os.Stat on the simulated disk.
+// Lstat implements os.Lstat: a symbolic link is reported as such.
+func Lstat(name string) (Info, error) {
+	p := Cur
+	if _, ok := p.FS.Links[name]; ok {
+		p.Steps = append(p.Steps, StepRec{N: len(p.Steps), Kind: "lstat", Arg: name})
+		return Info{Name: name, Link: true, Clock: p.Clock}, nil
+	}
+	return Stat(name)
+}
+
 func Stat(name string) (Info, error) {
 	p := Cur
 	p.Steps = append(p.Steps, StepRec{N: len(p.Steps), Kind: "stat", Arg: name})
+	name = p.FS.Resolve(name)
 	if p.FS.Dirs[name] {
 		return Info{Name: name, Dir: true, Clock: p.Clock}, nil
 	}
@@ -628,6 +659,10 @@ func (h *Handle) Stat() (Info, error) {
 func Remove(name string) error {
 	p := Cur
 	p.Steps = append(p.Steps, StepRec{N: len(p.Steps), Kind: "remove", Arg: name})
+	if _, ok := p.FS.Links[name]; ok {
+		delete(p.FS.Links, name) // removes the link, not what it points to
+		return nil
+	}
 	if _, ok := p.FS.Files[name]; !ok {
 		return pathErr("remove", name, syscall.ENOENT)
 	}
@@ -646,6 +681,7 @@ func Rename(from, to string) error {
 	if !p.FS.Dirs[dirOf(to)] || p.FS.Dirs[to] {
 		return &fs.PathError{Op: "rename", Path: to, Err: syscall.ENOENT}
 	}
+	delete(p.FS.Links, to) // rename replaces a symbolic link itself, it does not follow it
 	p.FS.Files[to] = d
 	delete(p.FS.Files, from)
 	return nil
